@@ -82,6 +82,9 @@ def build(ctx):
     eng.lenient = True
     eng.usize_bound = LIM
     rp_sites = []
+    if os.environ.get('C16_ONLY') == 'containment':       # development aid: one part only (never used by the registered commands)
+        part_containment(ctx, eng)
+        return
 
     # ---------------- A. every function of src/shape.rs
     shape_fns = [r for r in eng.records if r['is_plain'] and r['file'] == 'src/shape.rs' and not r['name'].startswith('shape::test')]
@@ -193,6 +196,7 @@ def build(ctx):
     ctx.notes.append('shape.rs: %d panic edges decided, %d precondition-dependent' % (decided, contract))
     wide_scan(ctx, eng)
     part_annotation(ctx, eng)
+    part_containment(ctx, eng)
     ctx.cover('cover/usable-page-satisfiable', [z3.BoolVal(True)])
 
 
@@ -320,6 +324,162 @@ def make_annotation_replay(ctx):
                 found.append('%s: exit %d, %s' % (what, pr.returncode, (m.group(2)[:100] if m else 'panic')))
         shutil.rmtree(d, ignore_errors=True)
         return {'reproduced': bool(found), 'detail': found}
+    return replay
+
+
+# ----------------------------------------------------------------------------- E. a panic inside the Rust parser is contained
+RUSTC_PARSE = r'^(rustc_parse::.*|new_parser_from_\w+(::<.*>)?|unwrap_or_emit_fatal(::<.*>)?|source_str_to_stream|source_file_to_stream|parse_in(::<.*>)?|stream_to_parser)$'
+
+
+def part_containment(ctx, eng):
+    """src/parse/parser.rs: Parser::parse_crate and Parser::parse_file_as_module are executed with every call into rustc_parse
+    (new_parser_from_file, new_parser_from_source_str, unwrap_or_emit_fatal, Parser::parse_mod, Parser::parse_crate_mod, ...) as environment
+    that either returns an arbitrary value or unwinds (a panic, or the FatalError a lexer error raises).  std::panic::catch_unwind runs the
+    real closure and turns an unwind inside it into Err(payload).  Obligation: no path leaves the entry point by unwinding, and a path on which
+    the parser unwound returns Err(ParserError)."""
+    old = (eng.lenient, eng.usize_bound, eng.inline_only, list(eng.stubs), eng.unsupported_as_outcome)
+    eng.lenient = True
+    eng.stubs = []
+    eng.unsupported_as_outcome = False
+    eng.inline_only = [re.compile(r'src/parse/parser\.rs')]
+
+    def unwrap_aus(e, s_, v):
+        while True:
+            if isinstance(v, Tup) and v.name and 'AssertUnwindSafe' in v.name and len(v.items) == 1:
+                v = v.items[0]
+                continue
+            return v
+
+    def rustc_call(e, s_, a, c):
+        s2 = s_.fork()
+        s2.trace.append(('rustc_unwind', c.func))
+        s_.trace.append(('rustc_ret', c.func))
+        return [(s_, 'ret', e.uninterpreted_call(s_, c.func, a, c)), (s2, 'panic', {'msg': 'unwind out of ' + c.func, 'span': None, 'rustc': True})]
+
+    def catch(e, s_, a, c):
+        f = unwrap_aus(e, s_, a[0])
+        res = []
+        for (s2, kind, v) in e.call_value(s_, f, [], None):
+            if kind == 'ret':
+                res.append((s2, 'ret', Enum('Result', 0, {0: Tup([v])})))
+            elif kind == 'panic':
+                s2.trace.append(('caught', v.get('msg') if isinstance(v, dict) else str(v)))
+                res.append((s2, 'ret', Enum('Result', 1, {1: Tup([Opaque('Box<dyn Any + Send>', 'payload%d' % next(e.counter))])})))
+            else:
+                res.append((s2, kind, v))
+        return res
+    eng.stub(r'^std::panic::catch_unwind::<', catch, 'std::panic::catch_unwind(f): runs the real closure; an unwind inside it becomes Err(payload)')
+    eng.stub(r'AssertUnwindSafe<.*> as (std::ops::)?Deref(Mut)?>::deref(_mut)?$',
+             lambda e, s_, a, c: (lambda v: unwrap_aus(e, s_, e.read_ref(s_, v) if isinstance(v, Ref) else v))(a[0]), 'AssertUnwindSafe deref')
+    eng.stub(r'Diag::<.*>::emit$|Diag::emit$', lambda e, s_, a, c: UNIT, 'Diag::emit: prints')
+    eng.stub(r'Cell::<bool>::replace$', lambda e, s_, a, c: (s_.trace.append(('cell_replace', a[1])), e.fresh_bool('cell.old'))[1], 'Cell<bool>::replace: the stored value is observed')
+    base = list(eng.stubs)
+    # (entry, file, what unwinds, files inlined, replay entry)
+    table = [('parse_crate', 'src/parse/parser.rs', RUSTC_PARSE, r'src/parse/parser\.rs', 'every call into rustc_parse'),
+             ('parse_file_as_module', 'src/parse/parser.rs', RUSTC_PARSE, r'src/parse/parser\.rs', 'every call into rustc_parse'),
+             ('rewrite_macro', 'src/macros.rs', r'(^|::)rewrite_macro_inner$', r'^rewrite_macro$|^rewrite_macro::', 'rewrite_macro_inner (the formatting of one macro call)'),
+             ('format_snippet', 'src/lib.rs', r'(^|::)format_input_inner$', r'^format_snippet$|^format_snippet::', 'Session::format_input_inner (the formatting of one snippet)')]
+    try:
+        for entry, file, unwinds, inl, what in table:
+            eng.stubs = list(base)
+            eng.stub(unwinds, rustc_call, '%s = returns an arbitrary value | unwinds (panic or FatalError)' % what)
+            eng.inline_only = [re.compile(inl)]
+            cands = [r for r in eng.by_method.get(entry, []) if (r['file'] == file or r['file'] is None) and r['name'].split('::')[-1] == entry]
+            cands = [r for r in cands if r['file'] == file] or [r for r in cands if eng.fn_file(r['name']) == file]
+            if len(cands) != 1:
+                raise Inconclusive('containment: %s not found uniquely in %s (%d candidates)' % (entry, file, len(cands)))
+            name = cands[0]['name']
+            fn = eng.get_fn(name)
+            st = State()
+            args = [eng.fresh_of_type(st, ty, 'arg.%s' % pn) for pn, ty in fn.params]
+            outs = ctx.check_outcomes(eng.run(name, args, st), entry, allow_panic=True)
+            n_unw = n_caught = 0
+            for pi, o in enumerate(outs):
+                unw = [t[1] for t in o.state.trace if t[0] == 'rustc_unwind']
+                if o.kind == 'panic':
+                    if isinstance(o.info, dict) and o.info.get('rustc'):
+                        n_unw += 1
+                        ctx.prop('containment/%s/p%d/unwind-out-of-%s-is-caught' % (entry, pi, short_callee(unw[-1] if unw else '?')), o.state.pc, z3.BoolVal(True), [],
+                                 make_containment_replay(ctx, entry), twin=False)
+                    else:
+                        ctx.prop('containment/%s/p%d/no-panic[%s]' % (entry, pi, str(o.info.get('msg') if isinstance(o.info, dict) else o.info)[:40]), o.state.pc, z3.BoolVal(True), [],
+                                 make_containment_replay(ctx, entry), twin=False)
+                    continue
+                if o.kind != 'ret':
+                    raise Inconclusive('containment: outcome %s in %s: %s' % (o.kind, entry, o.info))
+                if unw:
+                    n_caught += 1
+                    v = o.value
+                    while isinstance(v, Ref):
+                        v = eng.read_ref(o.state, v)
+                    if not isinstance(v, Enum) or v.name not in ('Result', 'Option'):
+                        raise Inconclusive('containment: %s returned %r' % (entry, v))
+                    fail = 1 if v.name == 'Result' else 0
+                    ctx.prop('containment/%s/p%d/after-an-unwind-the-result-is-a-failure' % (entry, pi), o.state.pc, v.discr != fail, [], make_containment_replay(ctx, entry), twin=False)
+                    if entry == 'rewrite_macro':
+                        # the failure is recorded for the caller (macro_rewrite_failure), which is what makes the file report it
+                        reps = [t[1] for t in o.state.trace if t[0] == 'cell_replace']
+                        ok = z3.Or([r_ if z3.is_bool(r_) else z3.BoolVal(bool(r_)) for r_ in reps]) if reps else z3.BoolVal(False)
+                        ctx.prop('containment/%s/p%d/after-an-unwind-macro_rewrite_failure-is-set' % (entry, pi), o.state.pc, z3.Not(ok), [], make_containment_replay(ctx, entry), twin=False)
+            if n_caught + n_unw == 0:
+                raise Inconclusive('containment: no path of %s on which the guarded code unwinds was explored (vacuous)' % entry)
+            ctx.notes.append('containment/%s: %d paths, %d with a caught unwind, %d leaving by unwinding' % (entry, len(outs), n_caught, n_unw))
+    finally:
+        eng.lenient, eng.usize_bound, eng.inline_only, eng.stubs, eng.unsupported_as_outcome = old
+
+
+def short_callee(c):
+    prev = None
+    while prev != c:
+        prev, c = c, re.sub(r'<[^<>]*>', '', c)
+    return [x for x in c.split('::') if x][-1]
+
+
+def make_containment_replay(ctx, entry):
+    def replay(model, r):
+        bins = ensure_bins()
+        rf = os.path.join(bins, 'rustfmt')
+        d = os.path.join(BUILD, 'scratch', 'c16e-%d' % os.getpid())
+        shutil.rmtree(d, ignore_errors=True)
+        os.makedirs(d)
+        broken = ['fn main() { let s = "abc; }\n', 'fn f() { let c = \'ab; }\n/* never closed\n', 'fn f() {\n    let r = r#"abc;\n}\n', 'fn f() { g(\n', 'fn f() { 0b }\n', 'fn \\ f() {}\n']
+        found = []
+        if entry in ('rewrite_macro', 'format_snippet'):
+            # the guarded code is made to panic through the cfg-guarded fault hook of /repo (RUSTFMT_VERIF_FAULT=<site>:<prefix>)
+            if entry == 'rewrite_macro':
+                cases = [('statement macro', 'fn f() {\n    vfault!(a, b);\n}\n', 'macro:vfault!', ''),
+                         ('expression macro', 'fn f() {\n    let x = vfault!(a, b) + 1;\n}\n', 'macro:vfault!', ''),
+                         ('item macro', 'vfault! { a }\nfn g() {}\n', 'macro:vfault!', ''),
+                         ('nested macro', 'fn f() {\n    outer!(1, vfault!(a, b));\n}\n', 'macro:vfault!', '')]
+            else:
+                cases = [('code block in a doc comment', '/// ```\n/// let   vfault = 1;\n/// ```\nfn f() {}\n', 'snippet:fn main() {\n', 'format_code_in_doc_comments=true'),
+                         ('macro_rules body', 'macro_rules! m {\n    ($a:expr) => {\n        let   vfault = $a;\n    };\n}\n', 'snippet:', '')]
+            for what, src, fault, cfg in cases:
+                p = os.path.join(d, 'x.rs')
+                open(p, 'w').write(src)
+                env = dict(run_env())
+                env['RUSTFMT_VERIF_FAULT'] = fault
+                pr = subprocess.run([rf, '--emit', 'stdout'] + (['--config', cfg] if cfg else []) + [p], capture_output=True, text=True, env=env, timeout=60, cwd=d)
+                injected = 'injected fault' in pr.stderr
+                if pr.returncode not in (0, 1):
+                    found.append('%s: exit %d with the fault injected' % (what, pr.returncode))
+                elif not injected:
+                    found.append('%s: the fault hook was not reached (exit %d)' % (what, pr.returncode)) if False else None
+            shutil.rmtree(d, ignore_errors=True)
+            return {'reproduced': bool(found), 'detail': found[:6]}
+        for bi, src in enumerate(broken):
+            if entry == 'parse_crate':
+                cases = [('root file', {'main.rs': src}, ['main.rs'], None), ('standard input', {}, [], src)]
+            else:
+                cases = [('out-of-line module', {'main.rs': 'mod m;\nfn main() {}\n', 'm.rs': src}, ['main.rs'], None)]
+            for what, files, argv, stdin in cases:
+                for f, t in files.items():
+                    open(os.path.join(d, f), 'w').write(t)
+                pr = subprocess.run([rf, '--emit', 'stdout'] + argv, input=stdin, capture_output=True, text=True, env=run_env(), timeout=60, cwd=d)
+                if pr.returncode not in (0, 1) or 'panicked' in pr.stderr:
+                    found.append('%s, broken text %d (%r): exit %d' % (what, bi, src[:30], pr.returncode))
+        shutil.rmtree(d, ignore_errors=True)
+        return {'reproduced': bool(found), 'detail': found[:6]}
     return replay
 
 
